@@ -10,12 +10,13 @@ from vf import core, e2, e3, reent, spaces
 PID = "C14"
 LEVEL = "model_checking"
 RULE = ("E2: breadth-first search over call histories on the real code (5 classes x 3 model configs [thorough: 4]; full operation "
-        "alphabet of 257 calls under the default and limit_sigma models, reduced alphabet of 128 under tau=0 [thorough: full alphabet under all four incl. tau=2beta; "
-        "everywhere]; depth 2, thorough adds depth 3 on the reduced alphabet); on every transition I1 (model "
+        "alphabet of 282 calls (outcomes as ranks; every plain call a second time with positive integer scores) under the default and limit_sigma models, reduced alphabet of 146 under tau=0 [thorough: full alphabet under all four incl. tau=2beta; "
+        "everywhere]; depth 2, thorough adds depth 3 on the reduced alphabet; plus the option-toggle alphabet (32 calls on one pair of long-lived ratings: every per-call option combination x 3 outcomes, a foreign model's calls, mutate, restore, deepcopy, a rejected call) to depth 3, thorough 4; every history starts from a warm state (predictions made, two games rated between scratch ratings with the league's values); on every transition I1 (model "
         "snapshot unchanged) and I2 (bit-identical to the same call on a fresh model and fresh ratings with the same "
         "values, other ids and names; the same again with every rating carrying one id), I8 (a valid call leaves its teams / ranks / scores containers unchanged, so a "
-        "caller that re-uses them gets answers independent of the earlier call). E3: every schedule with <= b preemptions of harnesses H1-H12 (2-3 threads sharing "
+        "caller that re-uses them gets answers independent of the earlier call). E3: every schedule with <= b preemptions of harnesses H1-H15 (H14/H15: identical games in both threads; also under cache pressure: 140/300 filler calls with fresh values before every execution) (2-3 threads sharing "
         "one model) at source-line and opcode granularity; each thread's result must be bit-identical to its solo result. "
+        "The b <= 1 line-granularity search is repeated from a COLD START (every execution in a forked child of a process that has only imported the package), so lazily initialised shared state is created inside the explored execution. "
         "I1 is also evaluated over E1 spaces that reach the kappa floor, 6-8 teams, large custom gamma and big teams. Re-entrancy: every inner call executed inside every gamma invocation of every outer rate() on the same model. "
         "Seeds: the same exploration re-run under PYTHONHASHSEED in {0,1,2^32-1,VERIF_SEED} with different rating ids; "
         "digests of all observations must coincide.")
@@ -41,6 +42,12 @@ def e3_plan(ctx):
                 plan.append((h, kind, "opcode", 1, 12))
                 plan.append((h, kind, "line-helper", 2, 16))
             plan.append(("H5", kind, "line", 1, 8))
+            for h in ("H13", "H14", "H15"):
+                plan.append((h, kind, "line", 1, 2))
+                plan.append((h, kind, "opcode", 1, 12))
+            plan.append(("H14", kind, "line-helper", 2, 16))
+            plan.append(("H14P300", kind, "line", 1, 16))
+            plan.append(("H15P300", kind, "line", 1, 16))
             for h in ("H10", "H11"):
                 plan.append((h, kind, "line", 1, 2))
                 plan.append((h, kind, "opcode", 1, 12))
@@ -55,8 +62,12 @@ def e3_plan(ctx):
             if kind in ("PL", "TMP"):  # opcode granularity (sub-line interleavings) on two classes; all five in the thorough tier
                 plan.append(("H1", kind, "opcode", 1, 4))
             plan.append(("H5", kind, "line", 1, 6))
-            for h in ("H10", "H11"):
+            for h in ("H10", "H11", "H13", "H14", "H15"):
                 plan.append((h, kind, "line", 1, 2))
+            if kind in spaces.TM:  # under cache pressure (140 > functools.lru_cache's default 128): the helpers only TM calls, and the predictors
+                plan.append(("H14P140", kind, "line", 1, 8))
+            if kind in ("PL", "TMF"):
+                plan.append(("H15P140", kind, "line", 1, 12))
             plan.append(("H12", kind, "line", 1, 1))
             plan.append(("H12", kind, "opcode", 1, 2))
     return plan
@@ -94,6 +105,42 @@ def run_e3_unit(unit, ctx):
     if k == 0:
         acc.sample({"engine": "E3", "harness": h, "kind": kind, "granularity": gran, "bound": bound,
                     "points_per_thread": res["points_per_thread"], "executions_per_bound": res["executions"]})
+    return acc
+
+
+COLD_QUICK = ("H1", "H3", "H4", "H8", "H10", "H12", "H13", "H14", "H15")
+
+
+def _coldrun(args):
+    env = dict(os.environ)
+    env["PYTHONPATH"] = core.ROOT
+    env["VERIF_REPO"] = core.REPO
+    env["PYTHONHASHSEED"] = "0"
+    p = subprocess.run([core.PY, "-m", "vf.coldrun"] + [str(a) for a in args], stdout=subprocess.PIPE, stderr=subprocess.PIPE, text=True,
+                       env=env, cwd=core.ROOT, timeout=3600)
+    if p.returncode != 0 or not p.stdout.strip():
+        raise core.HarnessError(f"cold-start run {args} failed: {p.stderr[-600:]}")
+    return json.loads(p.stdout.strip().splitlines()[-1])
+
+
+def run_cold_unit(unit, ctx):
+    """E3 from a cold start: a pristine process imports the package and every controlled execution runs in a forked child of it, so
+    whatever the library initialises lazily on first use is initialised inside the explored execution (vf/coldrun.py)."""
+    _, h, kind, bound = unit
+    acc = core.Acc()
+    res = _coldrun(["explore", h, kind, bound])
+    n = sum(res["executions"])
+    acc.evals += n
+    acc.add("e3_cold_executions", n)
+    acc.add(f"e3_cold_points:{h}:{kind}", res["points"])
+    acc.mx("e3_cold_distinct_outcomes_max", res["outcomes"], f"{h}:{kind}")
+    acc.add("e3_unstable_executions", res["unstable"])
+    if not res["baseline_stable"]:
+        acc.add("e3_units_with_unstable_baseline")
+    for v in res["violations"]:
+        acc.violation(PID, f"E3C:{h}:{kind}", ("from a cold start (first use of the library in the process): " + "; ".join(v["msgs"]))[:900],
+                      {"engine": "E3C", "harness": h, "kind": kind, "dev": v["dev"], "first": v["first"]})
+    acc.sample({"engine": "E3 cold start", "harness": h, "kind": kind, "bound": bound, "executions_per_bound": res["executions"]})
     return acc
 
 
@@ -151,6 +198,8 @@ def dispatch(unit, ctx):
         return run_e3_unit(unit, ctx)
     if unit[0] == "census":
         return run_census_unit(unit, ctx)
+    if unit[0] == "cold":
+        return run_cold_unit(unit, ctx)
     if unit[0] == "reent":
         _, kind = unit
         acc = core.Acc()
@@ -222,10 +271,13 @@ def replay(case):
         e3.baseline(mk, case["gran"].replace("-helper", ""), len(solo_res))
         dev = {int(k): v for k, v in case["dev"].items()}
         ex = e3.run_once(mk, dev, case["first"], case["gran"].replace("-helper", ""))
+        ex.probe_expected = getattr(mk, "probe_expected", None)
         try:
             return e3.check(ex, snap0, solo_res)
         except e3.Unstable:
             return []
+    if eng == "E3C":
+        return _coldrun(["replay", case["harness"], case["kind"], case["first"], json.dumps(case["dev"])])["msgs"]
     if eng == "I1S":
         from vf import lib
 
@@ -266,6 +318,10 @@ def main(ctx, t0):
     searches = [(k, c, "full" if c in ("default", "limit") or ctx.thorough else "reduced") for k in spaces.KINDS for c in e2.MODEL_CFGS
                 if ctx.thorough or c != "tau2b"]
     stats, acc = e2.explore(searches, 2, ctx, invs=INVS)
+    tog = [(k, c, "toggle") for k in spaces.KINDS for c in ("default", "limit")]
+    stats_t, acc_t = e2.explore(tog, 4 if ctx.thorough else 3, ctx, chunk=32, invs=INVS)
+    stats.update(stats_t)
+    acc.merge(acc_t)
     stats3 = {}
     if ctx.thorough:
         searches3 = [(k, "default", "reduced") for k in spaces.KINDS]
@@ -293,6 +349,9 @@ def main(ctx, t0):
     for kind in spaces.KINDS:
         for h in (e3.HARNESSES if ctx.thorough else ("H1", "H4", "H5", "H8")):
             units.append(("census", h, kind))
+    for kind in spaces.KINDS:
+        for h in (e3.HARNESSES if ctx.thorough else COLD_QUICK):
+            units.append(("cold", h, kind, 1))
     for kind in spaces.KINDS:
         units.append(("reent", kind))
         for sp, K in I1_SPACES:
@@ -328,13 +387,17 @@ def main(ctx, t0):
                                   "preemptions) are Mazurkiewicz-equivalent to a serial order" if shared_writes == 0 else
                                   "shared writes exist; only the bounded search decides")},
         "seed_runs": seed_out,
+        "e3_cold_start": {"executions": keep.count.get("e3_cold_executions", 0),
+                          "distinct_outcome_vectors_max": keep.maxi.get("e3_cold_distinct_outcomes_max", (0, None))[0],
+                          "meaning": "the same schedule exploration (b <= 1, line granularity) with every execution in a forked child of a process "
+                                     "that has imported the package and never used it: lazily initialised library state is initialised inside the explored execution"},
         "reentrancy": {"executions": keep.count.get("reentrancy_executions", 0), "gamma_points": keep.count.get("reentrancy_gamma_points", 0)},
     }
     return core.finish(PID, ctx, LEVEL, keep, RULE, extra, ASSUMPTIONS, t0)
 
 
 def replay_unit(unit, ctx):
-    if unit and unit[0] in ("e3", "census", "free", "reent", "i1"):
+    if unit and unit[0] in ("e3", "census", "free", "reent", "i1", "cold"):
         return dispatch(unit, ctx)
     core.deterministic_ids(0)
     acc = e2._expand(unit, ctx)
